@@ -29,6 +29,11 @@ NOT_DECIDED = ('queue equivalence over unbounded histories (the one-step relatio
                'write (either is accepted); the domain renaming and the memory primitive itself.')
 
 CLS = 'TransactionalizedFIFO'
+
+
+class _Stop(Exception):
+    pass
+
 STROBES = ('self.write_en', 'self.write_commit', 'self.write_discard', 'self.read_en', 'self.read_commit', 'self.read_discard')
 ROLE_STROBES = {                        # which public strobes gate the register of each role
     'cw': {'self.write_en', 'self.write_discard'},
@@ -237,6 +242,19 @@ def check(ctx, width, depth, dyn):
     tag = 'w%d,d%d' % (width, depth)
     ir = ctx.ir(CLS, 'gateware.memory', width=width, depth=depth)
     mdl = Model(ctx, ir)
+    # the memory ports are wired combinationally: a write lands in the cycle the write pointer advances, the read address
+    # is the pointer of the next cycle.  A port input that is a register shifts the access by a cycle against the pointers
+    # and the status flags (decided structurally; the finite evaluation below presumes it)
+    port_sigs = {p.attrs[f].canon(): '%s.%s' % (p.port_kind, f) for m_ in ir.memories for p in m_.ports
+                 for f in ('addr', 'data', 'en') if f in p.attrs and isinstance(p.attrs[f], E)}
+    late = sorted(r for r in mdl.regs if r in port_sigs and port_sigs[r] != 'read_port.data')
+    ctx.ob('C18.port-wiring', '%s.memory.ports.combinational[%s]' % (CLS, tag), not late,
+           mdl.sync[late[0]][0].loc if late else (ir.memories[0].loc if ir.memories else None),
+           'the memory port inputs %s are registers: the access happens a cycle after the pointers and the empty/full flags '
+           'have moved (a committed entry can be read before it is stored)' % late if late else
+           'address, data and enable of both memory ports are combinational')
+    if late:
+        raise _Stop()
     role = discover(ctx, ir, mdl)
     CW, KW, CR, KR = role['cw'], role['kw'], role['cr'], role['kr']
     D, N = depth, depth + 1
@@ -424,7 +442,10 @@ def run(ctx):
     last = None
     bad_reset = []
     for width, depth in configs:
-        ir, role, P, inits = check(ctx, width, depth, dyn)
+        try:
+            ir, role, P, inits = check(ctx, width, depth, dyn)
+        except _Stop:
+            return                      # a violated structural premise has been reported; nothing further is evaluated
         if len(set(inits.values())) != 1 or max(inits.values()) > depth:
             bad_reset.append('width %d depth %d: %s' % (width, depth, inits))
         last = (ir, role, P)
